@@ -93,7 +93,7 @@ def b_any(reg, eng, st, args, kwargs, node):
     m = _sym_coll(eng, v)
     if m.t[1] == ("bool",):
         return [(st, vbool(z3.Select(m.x, TRUE)))]
-    x = fresh(m.t[1], "a")
+    x = eng.bvar("a!", m.t[1])
     return [(st, vbool(z3.Exists(reg.consts_of(x), z3.And(z3.Select(m.x, to_term(x)), eng.truth(x)))))]
 
 
@@ -104,7 +104,7 @@ def b_all(reg, eng, st, args, kwargs, node):
     m = _sym_coll(eng, v)
     if m.t[1] == ("bool",):
         return [(st, vbool(z3.Not(z3.Select(m.x, FALSE))))]
-    x = fresh(m.t[1], "a")
+    x = eng.bvar("a!", m.t[1])
     return [(st, vbool(z3.ForAll(reg.consts_of(x), z3.Implies(z3.Select(m.x, to_term(x)), eng.truth(x)))))]
 
 
